@@ -215,6 +215,11 @@ tzm_open(const char *fn)
 	}
 	/* turn offset into native endianness */
 	m->off = be32toh(m->off);
+	/* the zone names must lie within the file and be terminated there */
+	if (UNLIKELY(m->off > fz - sizeof(*m) || m->off % sizeof(m->off) ||
+		     (m->off && m->data[m->off - 1U]))) {
+		goto mun;
+	}
 	/* also put fd and map size into m */
 	m->flags[0U] = (znoff_t)fd;
 	m->flags[1U] = (znoff_t)st->st_size;
@@ -246,48 +251,60 @@ tzm_close(tzmap_t m)
 DEFUN const char*
 tzm_find(tzmap_t m, const char *mname)
 {
-/* lookup zname for MNAME */
-	const znoff_t *sp = (const void*)tzm_mnames(m);
-	const znoff_t *ep = sp + tzm_mname_size(m) / sizeof(*sp) - 1U;
+/* lookup zname for MNAME
+ * the mapped names are a sequence of records, each being the name padded
+ * with \nuls to a znoff_t boundary followed by one znoff_t whose first
+ * byte is \nul (offsets have 16 bits and are shifted by 8) */
+	const znoff_t *const mns = (const void*)tzm_mnames(m);
 	const char *zns = tzm_znames(m);
+	/* candidates lie in [lo, hi), lo is always the start of a record */
+	size_t lo = 0U;
+	size_t hi = tzm_mname_size(m) / sizeof(*mns);
 
-	/* do a bisection now */
-	do {
-		const char *mp = mname;
+#define VALUE_P(i)	(*(const char*)(mns + (i)) == '\0')
+	while (lo < hi) {
+		size_t rs = lo + (hi - lo) / 2U;
+		size_t ve;
 		const char *tp;
-		const char *p;
+		size_t tz;
+		int c;
 
-		tp = (const char*)(sp + (ep - sp) / 2U);
-		if (!*tp) {
-			/* fast forward to the next entry */
-			tp += sizeof(*sp);
-		} else {
-			while (tp[-1] != '\0') {
-				/* rewind to beginning */
-				tp--;
-			}
+		/* rewind to the beginning of the record */
+		if (VALUE_P(rs) && rs-- == lo) {
+			/* a record without a name, not ours */
+			break;
 		}
-		/* store tp again */
-		p = tp;
-		/* now unroll a strcmp */
-		for (; *mp && *mp == *tp; mp++, tp++);
-		if (*mp - *tp < 0) {
+		for (; rs > lo && !VALUE_P(rs - 1U); rs--);
+		/* and find its value */
+		for (ve = rs; ve < hi && !VALUE_P(ve); ve++);
+		if (UNLIKELY(ve >= hi)) {
+			/* a name without value, not ours either */
+			break;
+		}
+		/* now compare, the name needn't be \nul terminated */
+		tp = (const char*)(mns + rs);
+		tz = (ve - rs) * sizeof(*mns);
+		if ((c = strncmp(mname, tp, tz)) == 0 && strlen(mname) > tz) {
+			/* MNAME goes on where the record's name ends */
+			c = 1;
+		}
+		if (c < 0) {
 			/* use lower half */
-			ep = (const znoff_t*)p - 1U;
+			hi = rs;
+		} else if (c > 0) {
+			/* use upper half */
+			lo = ve + 1U;
 		} else {
-			/* forward to the next znoff_t alignment */
-			const znoff_t *op =
-				(const znoff_t*)ALIGN_TO(znoff_t, tp - 1U) + 1U;
+			/* found it */
+			const size_t off = be32toh(mns[ve]) >> 8U;
 
-			if (*mp - *tp > 0) {
-				/* use upper half */
-				sp = op + 1U;
-			} else {
-				/* found it */
-				return zns + (be32toh(*op) >> 8U);
+			if (UNLIKELY(off >= tzm_zname_size(m))) {
+				break;
 			}
+			return zns + off;
 		}
-	} while (sp < ep);
+	}
+#undef VALUE_P
 	return NULL;
 }
 
